@@ -74,6 +74,8 @@ type AOp struct {
 	Via  int    `json:"via,omitempty"` // index into the joined nodes, modulo
 	Sel  int    `json:"sel,omitempty"` // which of the capable members the select function returns (sorted by id, modulo)
 	Node int    `json:"node,omitempty"`
+	// swap: Node leaves and Node2 joins in one and the same snapshot
+	Node2 int `json:"node2,omitempty"`
 }
 
 type ACase struct {
@@ -161,11 +163,10 @@ func runAct(c ACase) (map[string]int, error) {
 			cls[i].Engine().Send(cls[i].PID(), &cluster.Members{Members: ms})
 		}
 		for _, i := range joinedList() {
-			if got := cls[i].Members(); len(got) != len(ms) {
-				if len(got) == 0 {
-					return fmt.Errorf("%w: Members() on n%d returned nothing", errInconclusive, i)
-				}
-				return fmt.Errorf("harness: membership of n%d is %v after a snapshot of %d members (C18's business)", i, ids(got), len(ms))
+			// Members() is the barrier (a request through the agent's inbox, behind the snapshot).  What the
+			// view then looks like is C18's business; this check judges the activations only.
+			if got := cls[i].Members(); len(got) == 0 {
+				return fmt.Errorf("%w: Members() on n%d returned nothing", errInconclusive, i)
 			}
 		}
 		return nil
@@ -372,6 +373,32 @@ func runAct(c ACase) (map[string]int, error) {
 				}
 			}
 			feat["leave"]++
+		case "swap":
+			// one snapshot in which a member has left AND another has joined (what a polling provider
+			// reports when both happened between two polls)
+			if op.Node2 < 0 || op.Node2 > 3 {
+				return nil, nil
+			}
+			if !joined[op.Node] || joined[op.Node2] || gone[op.Node2] || len(jl) < 2 {
+				continue
+			}
+			joined[op.Node], gone[op.Node], joined[op.Node2] = false, true, true
+			net.mu.Lock()
+			net.down[addr(op.Node)] = true
+			net.mu.Unlock()
+			if err := publish(); err != nil {
+				return nil, err
+			}
+			for k, p := range model {
+				if p.Address == addr(op.Node) {
+					delete(model, k)
+					feat["leave-purges-activation"]++
+					feat["swap-purges-activation"]++
+				}
+			}
+			feat["leave"]++
+			feat["join"]++
+			feat["leave-and-join-in-one-snapshot"]++
 		default:
 			return nil, nil
 		}
@@ -392,7 +419,7 @@ func genAct(t *rapid.T) ACase {
 	}
 	n := rapid.IntRange(1, 14).Draw(t, "ops")
 	for i := 0; i < n; i++ {
-		op := AOp{K: rapid.SampledFrom([]string{"activate", "activate", "activate", "deactivate", "cspawn", "join", "leave"}).Draw(t, "k")}
+		op := AOp{K: rapid.SampledFrom([]string{"activate", "activate", "activate", "activate", "deactivate", "cspawn", "join", "leave", "swap"}).Draw(t, "k")}
 		op.Via = rapid.IntRange(0, 3).Draw(t, "via")
 		switch op.K {
 		case "activate", "deactivate":
@@ -403,6 +430,9 @@ func genAct(t *rapid.T) ACase {
 			op.ID = rapid.IntRange(0, 2).Draw(t, "id")
 		case "join", "leave":
 			op.Node = rapid.IntRange(0, 3).Draw(t, "node")
+		case "swap":
+			op.Node = rapid.IntRange(0, 3).Draw(t, "node")
+			op.Node2 = rapid.IntRange(0, 3).Draw(t, "node2")
 		}
 		c.Ops = append(c.Ops, op)
 	}
